@@ -174,6 +174,25 @@ class C15(core.Check):
             ok = got is want
             sites.append(site(ok, facts, fail="wrong_node" if got is not None else "not_found",
                               got=node_id(got), want=node_id(want)))
+        # locations as the callers spell them: a dotted string split by pure_utils.strip_split (sync_properties, conformance).
+        # A trailing, leading or doubled dot yields an empty segment and therefore names no node; blanks around a dot are trimmed.
+        from doctrans.pure_utils import strip_split
+
+        for path in existing:
+            dotted = ".".join(path)
+            for spelled, label in ((dotted + ".", "trailing_dot"), ("." + dotted, "leading_dot"), (dotted.replace(".", "..", 1), "doubled_dot"),
+                                   (" " + dotted.replace(".", " . ") + " ", "blanks")):
+                if label == "doubled_dot" and len(path) == 1:
+                    continue
+                indep = [seg.strip() for seg in spelled.split(".")]
+                want = resolve(tree, indep)
+                facts = {"op": "find_spelled", "spelling": label, "path": dotted, "kinds": describe_path(tree, path), "exists": want is not None}
+                try:
+                    got = find_in_ast(list(strip_split(spelled, ".")), tree)
+                except Exception as e:
+                    sites.append(site(False, facts, fail="raise", **core.exc_obs(e)))
+                    continue
+                sites.append(site(got is want, facts, fail="wrong_node" if got is not None else "not_found", got=node_id(got), want=node_id(want)))
         # the less common call form: a single compound statement parsed with mode="single" (root ast.Interactive)
         if len(case["items"]) == 1 and ITEMS[case["items"][0]][1].startswith(("class ", "def ", "async def ")):
             ti = ast_parse(src, mode="single")
